@@ -54,3 +54,58 @@ func uniq(in []string) []string {
 	}
 	return out
 }
+
+// LinOp is one completed (or pending) operation of a concurrent history.
+type LinOp struct {
+	Call, Ret uint64 // Ret == 0: the call never returned (may or may not have taken effect)
+	In, Out   any
+	Desc      string
+}
+
+// Linearizable decides by exhaustive search (DFS over linearization orders, memoised on the set of linearized
+// operations and the model state) whether the history is linearizable w.r.t. the sequential model. step returns
+// the successor state and whether the operation's recorded output is legal in that state; key must identify a state.
+// Pending operations may be linearized anywhere after their call or not at all.
+func Linearizable[S any](ops []LinOp, init S, step func(S, LinOp) (S, bool), key func(S) string) bool {
+	n := len(ops)
+	if n > 62 {
+		panic("history too long for the exact checker")
+	}
+	full := uint64(0)
+	for i, o := range ops {
+		if o.Ret != 0 {
+			full |= 1 << uint(i)
+		}
+	}
+	seen := map[string]bool{}
+	var dfs func(done uint64, st S) bool
+	dfs = func(done uint64, st S) bool {
+		if done&full == full {
+			return true
+		}
+		k := fmt.Sprintf("%x|%s", done, key(st))
+		if seen[k] {
+			return false
+		}
+		seen[k] = true
+		// an operation can be linearized next if no other un-linearized completed operation returned before it was called
+		minRet := ^uint64(0)
+		for i, o := range ops {
+			if done&(1<<uint(i)) == 0 && o.Ret != 0 && o.Ret < minRet {
+				minRet = o.Ret
+			}
+		}
+		for i, o := range ops {
+			if done&(1<<uint(i)) != 0 || o.Call > minRet {
+				continue
+			}
+			if ns, ok := step(st, o); ok {
+				if dfs(done|1<<uint(i), ns) {
+					return true
+				}
+			}
+		}
+		return false
+	}
+	return dfs(0, init)
+}
